@@ -147,6 +147,41 @@ func (s *c15Side) record(w *c15World, e mEnt) error {
 	return nil
 }
 
+// c15Scripted records the given steps on side s for reference ref.
+func c15Scripted(w *c15World, s *c15Side, script []string, ref string) error {
+	mine := []int{}
+	for _, st := range script {
+		switch st {
+		case "ref", "prop":
+			parents := []int{}
+			if cur, ok := s.refs[ref]; ok {
+				parents = []int{cur}
+			}
+			cn, err := w.newCommit(s.dir, parents)
+			if err != nil {
+				return err
+			}
+			e := mEnt{kind: "ref", ref: ref, target: cn}
+			if st == "prop" {
+				e = mEnt{kind: "prop", ref: ref, target: cn, uprepo: "https://example.com/up", upentry: cn}
+			}
+			if err := s.record(w, e); err != nil {
+				return err
+			}
+			mine = append(mine, len(s.ents)-1)
+		case "skiplast":
+			if err := s.record(w, mEnt{kind: "ann", targets: mine[len(mine)-1:], skip: true}); err != nil {
+				return err
+			}
+		case "skipboth":
+			if err := s.record(w, mEnt{kind: "ann", targets: mine, skip: true}); err != nil {
+				return err
+			}
+		}
+	}
+	return nil
+}
+
 var c15Refs = []string{"refs/heads/main", "refs/heads/feature", "refs/heads/rel"}
 
 // genSuffix records n random entries on side s over the given refs.
@@ -303,7 +338,8 @@ func runC15(c *runCtx) error {
 		}
 		np := len(remote.ents)
 		// divergence: which refs each side touches
-		shape := []string{"diverged-disjoint", "diverged-disjoint", "diverged-overlap", "remote-ahead", "local-ahead", "equal"}[r.Intn(6)]
+		shape := []string{"diverged-disjoint", "diverged-disjoint", "diverged-overlap", "remote-ahead", "local-ahead", "equal",
+			"diverged-overlap-via-propagation", "diverged-overlap-via-revoked", "remote-ahead-newest-revoked"}[r.Intn(9)]
 		lrefs, rrefs := c15Refs, c15Refs
 		if shape == "diverged-disjoint" {
 			p := r.Perm(3)
@@ -320,6 +356,37 @@ func runC15(c *runCtx) error {
 			nr = 0
 		case "equal":
 			nl, nr = 0, 0
+		}
+		// directed shapes: the shared reference is touched on the remote side only by a propagation entry, or only
+		// by entries that the same suffix revokes; or the newest remote-only entry of a reference is revoked and
+		// an older one of the same suffix is not
+		x := c15Refs[r.Intn(3)]
+		others := []string{}
+		for _, ref := range c15Refs {
+			if ref != x {
+				others = append(others, ref)
+			}
+		}
+		switch shape {
+		case "diverged-overlap-via-propagation":
+			if err := c15Scripted(w, remote, []string{"prop"}, x); err != nil {
+				return err
+			}
+			lrefs, rrefs, nl, nr = []string{x}, others, 1+r.Intn(2), r.Intn(2)
+		case "diverged-overlap-via-revoked":
+			script := []string{"ref", "skiplast"}
+			if r.Intn(2) == 0 {
+				script = []string{"ref", "ref", "skipboth"}
+			}
+			if err := c15Scripted(w, remote, script, x); err != nil {
+				return err
+			}
+			lrefs, rrefs, nl, nr = []string{x}, others, 1+r.Intn(2), r.Intn(2)
+		case "remote-ahead-newest-revoked":
+			if err := c15Scripted(w, remote, []string{"ref", "ref", "skiplast"}, x); err != nil {
+				return err
+			}
+			rrefs, nl, nr = others, 0, r.Intn(2)
 		}
 		if err := c15GenSuffix(c, w, remote, rrefs, nr, np); err != nil {
 			return err
